@@ -25,6 +25,60 @@ PROPS = {
             dict(test="FuzzC16Parse", kind="fuzz", tiers=[T], fuzztime={T: 45}),
         ],
     ),
+    "C06": dict(
+        pkg="c06", level="exploration",
+        technique="property-based testing (rapid) with independent frame opener/sealer as wire-format oracle plus round trip; exhaustive payload lengths 0..4097 x reader behaviours",
+        level_text=("Generated search over secrets, message sequences (both directions, counter continuity), payload lengths and source-reader behaviours; "
+                    "hc's wire bytes must be consumed completely by an independent opener built from the specification (LE length as AAD, per-direction LE counter nonce "
+                    "from 0, HKDF-SHA-512 Control-Salt keys, frames of 1..1024 bytes), hc must decrypt its own and reference-sealed frames. Thorough enumerates every "
+                    "length 0..4097 for six reader behaviours."),
+        level_note="Trusted: refctl framing code (cross-checked against x/crypto hkdf and chacha20poly1305 primitives). Counters above ~100 are not reached; (0,nil) reads are not generated.",
+        rule=("payload lengths enumerated (quick: boundary set 0..40, 250..260, 1000..1050, 2040..2060, 3070..3075, 4090..4097; thorough: 0..4097) x 6 reader modes, "
+              "plus rapid sequences of 1..6 messages with lengths up to 70000, random secrets and chunkings. Non-trivial: at least one payload longer than 0; distinct by (secret, message list)."),
+        assumptions=["source readers follow the io.Reader contract and never return (0,nil)"],
+        essential_classes=["len%1024=0/onebyte", "len%1024=0/whole", "len>1024/chunks", "len=0/whole", "multi-message", "len%1024=1/with-eof"],
+        exhaustive=False,
+        jobs=[
+            dict(test="TestC06Exhaustive", kind="plain", shards={Q: 4, T: 16}),
+            dict(test="TestC06Prop", kind="rapid", checks={Q: 400, T: 12000}, shards=12),
+        ],
+    ),
+    "C05": dict(
+        pkg="c05", level="exploration",
+        technique="property-based testing (rapid) with generated stream alterations and a prefix oracle; exhaustive single-bit flips and frame permutations/deletions/duplications for bounded sizes",
+        level_text=("Generated search: honest frame streams (reference sealer with maximal or arbitrary frame sizes, or hc's own Encrypt; counters advanced by a generated pre-roll) "
+                    "are altered (bit flips in length/body/tag, truncation, deletion, duplication, swap, replay of old frames, reflection of the receiver's own frames, cross-session splice, "
+                    "inserted garbage) and fed to hc's Decrypt; the oracle computes the number m of intact leading frames and demands that released plaintext is the plaintext of k<=m frames "
+                    "and that an error is returned unless the stream is a frame-boundary prefix. Bounded sub-domains are enumerated completely."),
+        level_note="Trusted: refctl sealer/opener. Counters are only reachable by sending frames (<= a few hundred); nonce bits above 2^32 are out of reach. At this level the receiver stops at the first error, as every caller in hc does.",
+        rule=("rapid scenarios (secret, pre-roll 0..300, sender kind, direction, 1..5 plaintexts of 0..3500 bytes, 1..2 alterations) + every single-bit flip for plaintext sizes "
+              "{1,2,17} (quick) / {1,2,17,1024,1030} (thorough) x 2 pre-rolls x 2 directions + every permutation, deletion subset and single duplication of <=4 (quick) / <=5 (thorough) frames. "
+              "Non-trivial: the altered stream differs from the original. Distinct by full scenario hash."),
+        assumptions=["the receiver stops reading after the first error (hc's Connection closes the socket)"],
+        essential_classes=["flip:length", "flip:body", "flip:tag", "truncate", "delete", "dup", "swap", "replay-old", "reflect", "splice", "outcome:detected", "outcome:prefix-at-frame-boundary", "counters>0", "sender:hc"],
+        jobs=[
+            dict(test="TestC05BitFlips", kind="plain", shards={Q: 2, T: 16}),
+            dict(test="TestC05FramePerms", kind="plain", shards={Q: 2, T: 4}),
+            dict(test="TestC05Prop", kind="rapid", checks={Q: 1500, T: 40000}, shards=12),
+        ],
+    ),
+    "C17": dict(
+        pkg="c17", level="exploration",
+        technique="property-based testing (rapid, reflect-driven value generator) with an independent schema-driven TLV8 codec as differential oracle in both directions; decoder fuzzing (rapid + native)",
+        level_text=("Generated search over values of every rtp message type and of synthetic structs covering every field kind at its extremes; three oracles per value: hc round trip, "
+                    "reference-decode(hc Marshal) = v, hc Unmarshal(reference-encode) = v. Arbitrary and mutated byte strings are decoded into every type under recover (no panic)."),
+        level_note="Trusted: refctl.StructEncode/StructDecode (written from the TLV8 rules; self-checked on every generated value). Elements of lists carry at least one numeric field (as every library type does); pointer fields are not generated.",
+        rule=("reflect-driven rapid generator over 21 struct types (14 from rtp, 7 synthetic); integers drawn from {0,1,-1,min,max,powers of two} and uniformly, float32 from special values and uniformly (finite), "
+              "strings/bytes of length 0..600 with 254/255/256/510 over-weighted, lists of 0..5 elements. Non-trivial: some field at a non-zero extreme or some list with >= 2 elements. Distinct by (type, reference encoding)."),
+        assumptions=["nil and empty slices/strings are the same value", "tag 0 with length 0 is the list delimiter and is not used as a field tag"],
+        essential_classes=["kind:int64", "kind:float32", "kind:inline-list", "kind:tagged-list", "kind:nested", "tagged-element>255", "decode:mutated", "decode:raw", "type:VideoStreamConfiguration", "regress"],
+        jobs=[
+            dict(test="TestC17Regress", kind="plain"),
+            dict(test="TestC17Prop", kind="rapid", checks={Q: 1500, T: 60000}, shards=10),
+            dict(test="TestC17Decode", kind="rapid", checks={Q: 2500, T: 100000}, shards=6),
+            dict(test="FuzzC17Decode", kind="fuzz", tiers=[T], fuzztime={T: 60}),
+        ],
+    ),
 }
 
 # reasons for properties not claimed yet (kept current while the framework is being built)
